@@ -16,12 +16,14 @@ LEVEL_NOTE = ("The ~18 kLoC HOLA pipeline (peeling, stress descent, ACA/chains, 
               "libdialect functions are suppressed by allocation site in the harness (they belong to C15).")
 TECHNIQUE = "translation validation: proven Lean 4 checkers (iff theorems) on the outputs of the real doHOLA under ASan/UBSan"
 DESIGN_REF = "DESIGN.md section 6 C14"
-RULE = ("cases = 6 fixed witnesses of finding candidates (tags finding-*) + generated connected simple graphs, 8 classes round-robin (tree, tree-sym, cycle(+chords), core-trees x2, hub x2, "
-        "links = subdivided multigraph skeletons), 5-25 nodes quick / 5-60 thorough, 4 size modes (3 integer modes adjusted so "
-        "that IEL and every padding amount are dyadic => pad/unpad exact; 1 free mode, tag suffix -free), 4 initial-position "
-        "modes (random, fine grid, jittered lattice, heavily overlapping), options: useACAforLinks, do_near_align, align_reps "
-        "1-3, kinkWidth .25/.5, scope 1/2, preferredAspectRatio NONE/PORTRAIT/LANDSCAPE. Fixed case counts: 6+160 quick, 6+400 "
-        "thorough. A case is non-trivial if doHOLA moved a node and returned at least one route.")
+RULE = ("cases = 7 fixed witnesses of finding candidates (tags finding-*) + generated connected simple graphs, 10 classes "
+        "round-robin (tree, tree-sym, cycle(+chords), core-trees x2, hub x2, links = subdivided multigraph skeletons, tree-aniso, "
+        "core-trees-aniso), 5-25 nodes quick / 5-60 thorough, 7 size modes (3 integer modes adjusted so that IEL and every "
+        "padding amount are dyadic => pad/unpad exact; 1 free mode, tag suffix -free; in the -aniso classes tall-thin 6-16 x "
+        "60-110, wide-flat, or 8x90 / 90x8 leaves among 40x40 inner nodes), 4 initial-position modes (random, fine grid, "
+        "jittered lattice, heavily overlapping), options: useACAforLinks, do_near_align, align_reps 1-3, kinkWidth .25/.5, "
+        "scope 1/2, preferredAspectRatio NONE/PORTRAIT/LANDSCAPE, defaultTreeGrowthDir EAST/SOUTH/WEST/NORTH. Fixed case "
+        "counts: 7+160 quick, 7+400 thorough. A case is non-trivial if doHOLA moved a node and returned at least one route.")
 TRUSTED_BASE = ["Lean 4.33 kernel", "axioms: propext, Classical.choice, Quot.sound",
                 "compiled driver agrees with the kernel semantics of the checker definitions",
                 "harness/c14.cpp (generator, dump of Node::getCentre/getDimensions, Edge::getEndIds/getRoute, SepPair fields "
@@ -33,7 +35,8 @@ ASSUMPTIONS = ["input graphs are connected and simple (checked by the harness it
                "BDRY gaps include SepMatrix::getExtraBdryGap() of the returned matrix; extents are the returned node sizes"]
 EXPLANATION = ("SPECFAIL messages start with the '+'-joined labels of the failing clauses; labels with '~' name a recognised "
                "sub-class (sizesKept~ulp, routeOrthogonal~hairline, sep~treeCentreAlign, sep~staleAlignBentEdge, "
-               "sep~staleAlignStraightEdge, sep~bdryExtraGap) so that known findings can be matched on the exact label set.")
+               "sep~staleAlignStraightEdge, sep~bdryExtraGap, sep~treeRankSep, noNodeOverlap~treeRanks, "
+               "routeOrthogonal~treeRankOverlap) so that known findings can be matched on the exact label set.")
 
 def plan(tier, seed, searching):
     return [dict(hargs=["--seed", str(seed), "--tier", tier, "--scale", "8" if searching else "1"], timeout=3000)]
